@@ -16,5 +16,10 @@ for id in "$@"; do
   out=$(VERIF_REPO=$wt VERIF_NOSHRINK=1 $scr/run.sh $id ${SEED_TIER:-quick} 2>&1); rc=$?
   case $rc in 1) r=DETECTED;; 0) r=missed;; *) r="harness-error($rc)";; esac
   echo "$sid $id $r"
+  # keep one replay witness per detecting check next to the seeded change (replayed by TestReplays on the clean tree)
+  if [ $rc = 1 ] && [ -d /verif/seeded/$sid ]; then
+    f=$(ls $scr/replays/$id/*.json 2>/dev/null | head -1)
+    [ -n "$f" ] && [ $(stat -c %s "$f") -lt 200000 ] && sed "s|$scr|/verif|g" "$f" > /verif/seeded/$sid/replay-$id.json
+  fi
   [ -n "$SEED_VERBOSE" ] && echo "$out" | grep -E "violation: sig|HARNESS|worker [0-9]" | cut -c1-600 | head -${SEED_VERBOSE}
 done
